@@ -7,23 +7,20 @@
 From Verif Require Import Base.GoInt Proto.Ext Generated.ProtoGen Proto.PrimSpec.
 From Verif Require Import Proto.RewriteModel Proto.RewriteSpec Proto.RewriteWire Proto.RewriteSet Proto.RewriteProofs.
 
-(* EVERY byte string (shorter than 2^62), every rewriter whose entries have a bit in the seen-set: the model returns
-   exactly what the abstract rewrite on field lists says, appended to out, or an error exactly when the abstract
-   rewrite has none; no panic, no fuel exhaustion *)
+(* EVERY byte string (shorter than 2^62), EVERY rewriter: the model returns exactly what the abstract rewrite on
+   field lists says, appended to out, or an error exactly when the abstract rewrite has none *)
 Theorem rewrite_refines : rewrite_refines_statement.
 Proof. exact RewriteProofs.rewrite_refines. Qed.
 
-(* full strength (no panic for ANY rewriter) is false: MessageRewriter{256: ...} indexes past its seen-set *)
-Theorem rewrite_no_panic_refuted : ~ rewrite_no_panic_statement.
-Proof. exact RewriteSet.rewrite_no_panic_refuted. Qed.
+(* full strength: no panic (no slice bound, no seen-set index out of range) and termination for every rewriter *)
+Theorem rewrite_no_panic : rewrite_no_panic_statement.
+Proof. exact RewriteProofs.rewrite_no_panic. Qed.
 
-(* strongest true variant: no panic and termination whenever every entry has a bit in the seen-set *)
-Theorem rewrite_no_panic_partial : rewrite_no_panic_partial_statement.
-Proof. exact RewriteProofs.rewrite_no_panic_partial. Qed.
-
-(* which lengths have a large enough seen-set: all up to 256; beyond, only (n+1) mod 64 in {0, 1, 63} *)
+(* because the seen-set has a bit for every index of a MessageRewriter of any length, at every level *)
 Theorem seen_bits_spec : seen_bits_statement.
 Proof. exact RewriteSet.seen_bits_spec. Qed.
+Theorem fits_all : fits_all_statement.
+Proof. exact RewriteProofs.fits_all. Qed.
 
 (* a regular message rewriter on a valid message: the output is a valid message; the fields of numbers the
    rewriter does not mention are those of the input, same values, same order; the fields of a templated number are
@@ -40,21 +37,19 @@ Theorem rewrite_canonical : rewrite_canonical_statement.
 Proof. exact RewriteProofs.rewrite_canonical. Qed.
 
 (* what a slot emits: the constant; the sub-message rewritten recursively behind tag and length (nothing when empty);
-   the or-ed varint *)
+   the or-ed number as a varint or fixed-width field *)
 Theorem emit_kinds : emit_kinds_statement.
 Proof. exact RewriteProofs.emit_kinds. Qed.
 
-(* the or-ed value read back with the field's codec is value | mask for int32/int64/uint32/uint64 fields *)
-Theorem bitor_value_spec : bitor_value_statement.
-Proof. exact RewriteSet.bitor_value_spec. Qed.
+(* bit-or, for T the Go type of the field and every kind BitOrRewriter accepts (int32, int64, sint32, sint64, uint32,
+   uint64, fixed32, fixed64, sfixed32, sfixed64): the number written is the field's encoding of value | mask when the
+   input number is the field's encoding of value *)
+Theorem bitor_roundtrip : bitor_roundtrip_statement.
+Proof. exact RewriteSet.bitor_roundtrip. Qed.
 
-(* on a zig-zag field the same claim is false (stored 4, mask 1: reads back 9) ... *)
-Theorem bitor_zigzag_refuted : ~ bitor_zigzag_statement.
-Proof. exact RewriteSet.bitor_zigzag_refuted. Qed.
-
-(* ... what is computed is the zig-zag form of the stored value or-ed with the mask *)
-Theorem bitor_zigzag_actual : bitor_zigzag_actual_statement.
-Proof. exact RewriteSet.bitor_zigzag_actual. Qed.
+(* the field a bit-or rewriter writes is one canonical field of its number: varint, or 4 / 8 little-endian bytes *)
+Theorem bitor_field_spec : bitor_field_statement.
+Proof. exact RewriteProofs.bitor_field_spec. Qed.
 
 (* valid messages: Parse never panics on a byte string, consumes at least a byte, returns well-formed fields *)
 Theorem Parse_total : Parse_total_statement.
